@@ -25,7 +25,8 @@ PROPS = {
 }
 
 PROPS["C12"] = {
-    "theorems": ["Nego.nego_agree", "Nego.enabled_iff", "Nego.enabled_iff_client", "Nego.takeover_iff", "Nego.bits_range", "Nego.bits_are_servers",
+    "modules": ["Gws.Props.C12", "Gws.Props.SourceShapeNego"],
+    "theorems": ["SourceShape.extension_headers_from_this_handshake", "Nego.nego_agree", "Nego.enabled_iff", "Nego.enabled_iff_client", "Nego.takeover_iff", "Nego.bits_range", "Nego.bits_are_servers",
                  "Nego.threshold_zero_under_takeover", "Nego.threshold_without_takeover", "Nego.headers_sent", "Nego.parse_perm_ws",
                  "Nego.parse_duplicate", "Nego.parse_bits_range", "Nego.parse_unknown_ignored", "Nego.atoi_itoa_roundtrip"],
     "suites": ["nego"],
@@ -232,17 +233,17 @@ _TRANS = {
                                           "TransEquiv.serverDecide_requestChecks", "TransEquiv.WithHeader_eq", "TransEquiv.keyAndAccept_eq", "TransEquiv.WithSubProtocol_eq", "TransEquiv.deleteProtectedHeaders_eq"]),
     "C11": (["Gws.Props.TransHandshake"], ["TransEquiv.HttpHeaderContainsToken_eq", "TransEquiv.GetIntersectionElem_eq", "TransEquiv.InCollection_eq",
                                           "TransEquiv.checkHeaders_eq", "TransEquiv.getSubProtocol_eq", "TransEquiv.request_headers_eq", "TransEquiv.clientHandshake_eq_translated"]),
-    "C05": (["Gws.Props.TransFrame", "Gws.Props.TransClose", "Gws.Props.TransWriter", "Gws.Props.TransCompress", "Gws.Props.TransFile", "Gws.Props.TransSend", "Gws.Props.TransFW"],
-            ["TransEquiv.FW.shouldCall_eq", "TransEquiv.FW.write_eq", "TransEquiv.FW.Write_eq", "TransEquiv.FW.Flush_eq", "TransEquiv.SetLength_eq", "TransEquiv.GenerateHeader_eq", "TransEquiv.local_close_body_eq", "TransEquiv.genFrame_eq", "TransEquiv.stripTail_eq", "TransEquiv.compressData_eq",
+    "C05": (["Gws.Props.TransFrame", "Gws.Props.TransClose", "Gws.Props.TransWriter", "Gws.Props.TransCompress", "Gws.Props.TransFile", "Gws.Props.TransSend", "Gws.Props.TransFW", "Gws.Props.TransReadLoop"],
+            ["TransEquiv.RL.splitReader_eq", "TransEquiv.RL.WriteTo_eq", "TransEquiv.RL.uncompressed_WriteFile_translated", "TransEquiv.FW.shouldCall_eq", "TransEquiv.FW.write_eq", "TransEquiv.FW.Write_eq", "TransEquiv.FW.Flush_eq", "TransEquiv.SetLength_eq", "TransEquiv.GenerateHeader_eq", "TransEquiv.local_close_body_eq", "TransEquiv.genFrame_eq", "TransEquiv.stripTail_eq", "TransEquiv.compressData_eq",
              "TransEquiv.flush_stripTail_eq", "TransEquiv.doWriteFile_frame_eq", "TransEquiv.doWrite_head_eq", "TransEquiv.broadcast_gate_eq"]),
     "C06": (["Gws.Props.TransClose", "Gws.Props.TransSend"], _TC + ["TransEquiv.doWrite_head_eq", "TransEquiv.broadcast_gate_eq"]),
     "C16": (["Gws.Props.TransClose", "Gws.Props.TransEmit"], ["TransEquiv.CheckEncoding_eq", "TransEquiv.emitClose_body_eq", "TransEquiv.emitMessage_eq"]),
     "C12": (["Gws.Props.TransNego", "Gws.Props.TransNegoParse"], _TN + _TNP),
     "C01": (["Gws.Props.TransNego"], ["TransEquiv.setThreshold_eq"]),
     "C17": (["Gws.Props.TransWindow"], ["TransEquiv.slideWindow_Write_eq", "TransEquiv.BinaryPow_eq"]),
-    "C02": (["Gws.Props.TransWindow", "Gws.Props.TransNego", "Gws.Props.TransEmit", "Gws.Props.TransCompress"],
+    "C02": (["Gws.Props.TransWindow", "Gws.Props.TransNego", "Gws.Props.TransEmit", "Gws.Props.TransCompress", "Gws.Props.TransReadLoop"],
             ["TransEquiv.slideWindow_Write_eq", "TransEquiv.BinaryPow_eq", "TransEquiv.setThreshold_eq", "TransEquiv.emitMessage_eq", "TransEquiv.stripTail_eq", "TransEquiv.compressData_eq",
-             "TransEquiv.doWrite_windowRule_eq", "TransEquiv.broadcast_windowRule_eq", "TransEquiv.compressor_window"]),
+             "TransEquiv.doWrite_windowRule_eq", "TransEquiv.broadcast_windowRule_eq", "TransEquiv.compressor_window", "TransEquiv.RL.WriteTo_eq"]),
 }
 # clauses of the properties stated directly of the translated source (Gws/Props/TransProps.lean)
 _TPROPS = {
@@ -296,6 +297,8 @@ def _rel_c13(v):
         return True
     if v["impl"].count("msg:") < v["model"].count("msg:"):
         return True          # a message within the limit was not delivered
+    if _re.findall(r"msg:\d+:[0-9a-f-]+", v["impl"]) != _re.findall(r"msg:\d+:[0-9a-f-]+", v["model"]):
+        return True          # … or something else was delivered in its place (e.g. an empty payload)
     return _crashy(v)
 
 
